@@ -30,9 +30,21 @@ def _names():
 
 
 def evaluate(code):
-    from tlexport.cipher_suite_parser import split_cipher_suite, cipher_suites
+    """one code point, resolved twice in a row (both answers must be the stateless one)"""
+    from tlexport.cipher_suite_parser import split_cipher_suite
     key = code.to_bytes(2, "big")
-    res = split_cipher_suite(key)
+    r1 = _judge(code, split_cipher_suite(key))
+    if r1["sig"]:
+        return r1
+    r2 = _judge(code, split_cipher_suite(key))
+    if r2["sig"]:
+        r2["sig"] = "second call in a row: " + r2["sig"]
+    return r2
+
+
+def _judge(code, res):
+    from tlexport.cipher_suite_parser import cipher_suites
+    key = code.to_bytes(2, "big")
     reg = registry().get("%04X" % code)
     if res is None:
         return {"sig": None, "nontrivial": False, "labels": ["rejected-registered" if reg else "rejected-unregistered"]}
@@ -66,6 +78,49 @@ def evaluate(code):
         sig = "wrong-parameter:" + bad[0].split(" ")[0]
     return {"sig": sig, "detail": f"{code:04X} {name}: " + "; ".join(bad), "nontrivial": True, "key": str(code),
             "labels": ["accepted", "kind:" + s.kind, "alg:" + s.alg]}
+
+
+def verdict(code, res):
+    """stateless expectation for one resolver call -> None (fine) or a short reason"""
+    r = evaluate.__wrapped__(code, res)
+    return r["sig"]
+
+
+def evaluate_history(spec):
+    """a sequence of resolver calls (accepted and rejected code points, repeats): the resolver is a pure function of its argument, so
+    every call must give what a fresh call gives - nothing remembered from earlier calls"""
+    from tlexport.cipher_suite_parser import split_cipher_suite
+    for i, code in enumerate(spec["codes"]):
+        res = split_cipher_suite(code.to_bytes(2, "big"))
+        sig = verdict(code, res)
+        if sig:
+            prev = spec["codes"][max(0, i - 2):i]
+            return {"sig": "history: " + sig, "detail": f"call #{i} code {code:04X} after {[('%04X' % c) for c in prev]}", "nontrivial": True}
+    reg = registry()
+    acc = sum(1 for c in spec["codes"] if ("%04X" % c) in reg)
+    return {"sig": None, "nontrivial": len(spec["codes"]) >= 4 and 0 < acc < len(spec["codes"]), "labels": ["history"]}
+
+
+def history_strategy(tier):
+    from hypothesis import strategies as st
+    from tlexport.cipher_suite_parser import cipher_suites
+    accepted = sorted(int.from_bytes(k, "big") for k in cipher_suites)
+    near = sorted({c + d for c in accepted for d in (-1, 1)} - set(accepted))
+    regd = sorted(int(k, 16) for k in registry())
+    code = st.one_of(st.sampled_from(accepted), st.sampled_from(near), st.sampled_from(regd), st.integers(0, 65535))
+
+    @st.composite
+    def seq(draw):
+        base = draw(st.lists(code, min_size=2, max_size=12))
+        out = []
+        for c in base:
+            out.append(c)
+            if draw(st.integers(0, 2)) == 0:
+                out.append(c)                      # the same code point again, immediately
+            if draw(st.integers(0, 4)) == 0 and out:
+                out.append(draw(st.sampled_from(out)))   # or an earlier one again
+        return {"codes": out}
+    return seq()
 
 
 def evaluate_quic(code):
@@ -102,14 +157,19 @@ def evaluate_quic(code):
 
 
 def stages(tier):
+    evaluate.__wrapped__ = _judge
     a = Stage("all-code-points", evaluate, specs=list(range(65536)), chunksize=2048)
+    d = Stage("all-code-points-descending", evaluate, specs=list(range(65535, -1, -1)), chunksize=2048)
+    h = Stage("call-histories", evaluate_history, strategy=history_strategy, examples=4000 if tier == "quick" else 200000)
     b = Stage("quic-resolver-all-code-points", evaluate_quic, specs=list(range(65536)), chunksize=2048)
-    return [a, b]
+    return [a, d, b, h]
 
 
 
 
-RULE = ("all 65536 two-byte code points are enumerated for the suite resolver and again for the QUIC session's resolver; oracle = "
+RULE = ("all 65536 two-byte code points are enumerated (ascending and descending, each resolved twice in a row) for the suite resolver and once "
+        "for the QUIC session's resolver, plus Hypothesis call histories (accepted / neighbouring / registered-but-unsupported / random code "
+        "points with immediate and later repeats) in which every call must give the stateless answer; oracle = "
         "independent registry copy (data/iana_tls_cipher_suites.json) + independent name parser (lib/tlsref.Suite); non-trivial = "
         "accepted code points (each distinct)")
 ASSUMPTIONS = ["data/iana_tls_cipher_suites.json is a faithful copy of the IANA registry for the code points TLExport accepts (compiled from "
